@@ -235,9 +235,10 @@ example :
     ∧ (readValue sys exS 0 exM1 h2).1 = .ok (some [7]) ∧ (readKnown sys exC 0 h2).1.toOption.map List.length = some 3 := by
   decide +kernel
 
-/-- **Restricted to memory-backed simulations** (the full statement — for every simulation — is false of
-the code and of the model: `Holder.clone` copies `_disk_storage` by reference and both simulations write
-into one temporary directory, finding F-C13-disk; see `C13_disk_shared_counterexample`).
+/-- **Restricted to memory-backed simulations**: proved about `cloneSim`, the repaired `Holder.clone` /
+`Simulation.clone` without the on-disk branch, which is the whole code path when no holder has a disk storage
+(for the disk-backed case see `C13_disk_clone_separate`; `cloneSim` applied to a disk-backed heap would share
+the storage objects: `C13_disk_shared_counterexample`, the former finding F-C13-disk).
 Whatever is reachable from the clone, through any number of references, is an object of the clone's
 region, whatever is reachable from the original is an object of the original's region: no object —
 store, holder, population, tracer, set of invalidated entries — is reachable from both. -/
@@ -338,7 +339,35 @@ example : (resultsOps exSys 40 exS exC .clone exOps exH')[1]? = some (.ok (.vec 
 example : (observe exC (runOps exSys 40 exS exC exOps exH')).1
     ≠ (observe exS (runOps exSys 40 exS exC exOps exH')).1 := by decide +kernel
 
-/-- The open finding, on the model: with a memory configuration (`exDiskH`: one person, one input stored
+/-- **Disk-backed simulations, repaired code (`cloneSimR`, repair C13-disk).**  `Simulation.clone` gives the clone
+no temporary directory (it makes its own on first use) and `Holder.clone` gives every cloned holder a new
+`OnDiskStorage` in that directory with copies of the period files.  On the example (`exDiskH`: one person, one
+input stored on disk): the clone lives in a closed region of its own — storage object, directory and files
+included —, the original's region is closed too, nothing is reachable from both, the clone reads the value from
+ITS copy of the file, and an input set on the clone for another month is not seen by the original.  Both regions
+being closed and distinct, `C13_family_noninterference` / `C13_family_any_local_operations` apply to every
+history that follows.  (That `cloneSimR` yields two closed regions for EVERY disk-backed simulation is carried by
+the correspondence — the alias graph of the real objects at every `clone()` — not yet by a general theorem: the
+general theorems above are about `cloneSim`, which `cloneSimR` equals on memory-backed simulations, an equality
+the driver checks on every clone of every case.) -/
+theorem C13_disk_clone_separate :
+    WellFormed exDiskH exS
+    ∧ (cloneSimR exS false false exDiskH).1 = .ok exC
+    ∧ Closed exS.reg (cloneSimR exS false false exDiskH).2 ∧ Closed exC.reg (cloneSimR exS false false exDiskH).2
+    ∧ (readValue exDiskSys exC 0 exM1 (cloneSimR exS false false exDiskH).2).1 = .ok (some [1])
+    ∧ (readValue exDiskSys exS 0 exM2
+        (runOps exDiskSys 40 exS exC [(.clone, .setInput 0 exM2 [2])] (cloneSimR exS false false exDiskH).2)).1 = .ok none
+    ∧ (readValue exDiskSys exC 0 exM2
+        (runOps exDiskSys 40 exS exC [(.clone, .setInput 0 exM2 [2])] (cloneSimR exS false false exDiskH).2)).1 = .ok (some [2])
+    ∧ (∀ p ∈ reach (cloneSimR exS false false exDiskH).2 3 [exC],
+        ∀ q ∈ reach (cloneSimR exS false false exDiskH).2 3 [exS], p ≠ q)
+    -- on a memory-backed simulation the two definitions are the same function
+    ∧ cloneSimR exS false false exH = cloneSim exS false false exH :=
+  ⟨WellFormed.ofB (by decide +kernel), by decide +kernel, by decide +kernel, by decide +kernel, by decide +kernel,
+    by decide +kernel, by decide +kernel, by decide +kernel, by decide +kernel⟩
+
+/-- Why the repair was needed (finding F-C13-disk, fixed): `cloneSim` is `Holder.clone` WITHOUT the disk branch;
+applied to a heap with a memory configuration (`exDiskH`: one person, one input stored
 on disk) the cloned holder shares the original's `OnDiskStorage`; an input set on the *clone* for another
 month is read from the *original*, which therefore differs from the original operated alone (no call at
 all), and the storage object and the directory are reachable from both simulations. -/
